@@ -464,3 +464,65 @@ Proof.
     apply H6. discriminate.
 Qed.
 Print Assumptions C18_main_theorem_applies.
+
+(* ---- the index arithmetic of the legacy partialArray.get/set/add/remove RE-TRANSLATED from the root
+   patch.go on every run (tools/goidx4v -> gen/IndexGen4.v: Go int arithmetic with 64-bit wrap-around, a
+   bounds test before every index and slice expression) and proved equal to the model (IndexTie4.v) for
+   every token, both settings of SupportNegativeIndices and every array shorter than 2^63 ---- *)
+From JP Require IndexTie4.
+From JP.gen Require IndexGen4.
+
+Theorem C18_go_get_is_model : forall g ns key,
+  (zlen ns <= int64_max)%Z ->
+  con4_get g (DAry ns) key =
+  IndexTie4.res_node4 ns (IndexGen4.idx4_get_gen (g_neg g) (zlen ns) (atoi key) (bseq key)).
+Proof. exact IndexTie4.con4_get_tie. Qed.
+Print Assumptions C18_go_get_is_model.
+
+Theorem C18_go_set_is_model : forall g ns key v,
+  (zlen ns <= int64_max)%Z ->
+  con4_set g (DAry ns) key v =
+  IndexTie4.res_con4 ns v (IndexGen4.idx4_set_gen (g_neg g) (zlen ns) (atoi key) (bseq key)).
+Proof. exact IndexTie4.con4_set_tie. Qed.
+Print Assumptions C18_go_set_is_model.
+
+Theorem C18_go_add_is_model : forall g ns key v,
+  (zlen ns < int64_max)%Z ->
+  con4_add g (DAry ns) key v =
+  IndexTie4.res_con4 ns v (IndexGen4.idx4_add_gen (g_neg g) (zlen ns) (atoi key) (bseq key)).
+Proof. exact IndexTie4.con4_add_tie. Qed.
+Print Assumptions C18_go_add_is_model.
+
+Theorem C18_go_remove_is_model : forall g ns key,
+  (zlen ns <= int64_max)%Z ->
+  con4_remove g (DAry ns) key =
+  IndexTie4.res_con4 ns NNil (IndexGen4.idx4_remove_gen (g_neg g) (zlen ns) (atoi key) (bseq key)).
+Proof. exact IndexTie4.con4_remove_tie. Qed.
+Print Assumptions C18_go_remove_is_model.
+
+(* the legacy set indexes out of range exactly for idx >= len — and replace, its only caller, asks get first *)
+Theorem C18_set_panics_iff : forall g ns key v,
+  con4_set g (DAry ns) key v = Panic <-> exists idx, atoi key = Some idx /\ (zlen ns <= idx)%Z.
+Proof. exact IndexTie4.con4_set_panic_iff. Qed.
+Print Assumptions C18_set_panics_iff.
+
+Theorem C18_replace_never_reaches_it : forall g v c key, fst (IndexTie4.replace4_body g v c key) <> Panic.
+Proof. exact IndexTie4.replace4_body_never_panics. Qed.
+Print Assumptions C18_replace_never_reaches_it.
+
+Theorem C18_replace_is_that_body : forall g st op b r,
+  op_kind op = KReplace -> op_str op (B "path") = Ok (b :: r) ->
+  step4 g st op =
+  lift4 (find4 g (r4 st) (b :: r)
+           (IndexTie4.replace4_body g (match op_value4 op with Some v => v | None => NNil end))) st
+        (fun _ c2 => Ok (mkState4 c2 (acc4 st))).
+Proof. exact IndexTie4.step4_replace_is_body. Qed.
+Print Assumptions C18_replace_is_that_body.
+
+(* ---- outputs are valid UTF-8 given UTF-8 input (Utf8Out.v), legacy Apply / ApplyIndent ---- *)
+From JP Require Utf8Out.
+Theorem C18_apply_output_utf8 : forall g indent p doc out,
+  Utf8Out.utf8_text doc -> Forall Utf8Out.op_utf8 p -> Utf8Out.utf8_text indent ->
+  api_apply4 g indent p doc = Out4 out -> Utf8Out.utf8_text out.
+Proof. exact Utf8Out.api_apply4_utf8. Qed.
+Print Assumptions C18_apply_output_utf8.
